@@ -87,6 +87,91 @@ func ProjectAll(gg glyf.Glyphs) []Glyph {
 	return res
 }
 
+// Run is n consecutive equal glyph projections (transport encoding of large glyph sets).
+type Run struct {
+	N int   `json:"n"`
+	G Glyph `json:"g"`
+}
+
+func sameInts(a, b []int) bool {
+	if len(a) != len(b) {
+		return false
+	}
+	for i := range a {
+		if a[i] != b[i] {
+			return false
+		}
+	}
+	return true
+}
+
+func sameGlyph(a, b Glyph) bool {
+	if a.K != b.K || a.Nc != b.Nc || a.HasInstr != b.HasInstr || !sameInts(a.BBox, b.BBox) ||
+		!sameInts(a.Body, b.Body) || !sameInts(a.Instr, b.Instr) || len(a.Comps) != len(b.Comps) {
+		return false
+	}
+	for i := range a.Comps {
+		if a.Comps[i].Flags != b.Comps[i].Flags || a.Comps[i].Gid != b.Comps[i].Gid || !sameInts(a.Comps[i].Data, b.Comps[i].Data) {
+			return false
+		}
+	}
+	return true
+}
+
+// RLE run-length encodes a list of projections.
+func RLE(gs []Glyph) []Run {
+	res := []Run{}
+	for _, g := range gs {
+		if n := len(res); n > 0 && sameGlyph(res[n-1].G, g) {
+			res[n-1].N++
+		} else {
+			res = append(res, Run{N: 1, G: g})
+		}
+	}
+	return res
+}
+
+// Digest stands for a glyph whose bytes are too many to log.
+type Digest struct {
+	K    string `json:"k"`
+	Nc   int    `json:"nc"`
+	BBox []int  `json:"bbox"`
+	BLen int    `json:"blen"` // length of the glyph description (record length minus header and padding)
+	BSum int    `json:"bsum"` // position-dependent checksum of the description
+}
+
+// DigestOf computes the digest of a simple or empty glyph.
+func DigestOf(g *glyf.Glyph) Digest {
+	d := Digest{K: "nil", BBox: []int{0, 0, 0, 0}}
+	if g == nil {
+		return d
+	}
+	d.BBox = []int{int(g.LLx), int(g.LLy), int(g.URx), int(g.URy)}
+	sg, ok := g.Data.(glyf.SimpleGlyph)
+	if !ok {
+		d.K = "c"
+		return d
+	}
+	d.K = "s"
+	d.Nc = int(sg.NumContours)
+	d.BLen = len(sg.Encoded)
+	s := 0
+	for _, x := range sg.Encoded {
+		s = (s*31 + int(x) + 1) % 1000003
+	}
+	d.BSum = s
+	return d
+}
+
+// DigestAll maps a glyph set.
+func DigestAll(gg glyf.Glyphs) []Digest {
+	res := make([]Digest, len(gg))
+	for i, g := range gg {
+		res[i] = DigestOf(g)
+	}
+	return res
+}
+
 // Safe runs f and reports a panic as a string.
 func Safe(f func()) (panicked bool, msg string) {
 	defer func() {
@@ -107,6 +192,8 @@ type LibSpec struct {
 	NilEvery int   `json:"nilevery"` // > 0: glyph i is empty unless i % NilEvery == 0
 	CompOdds int   `json:"compodds"` // > 0: one glyph in CompOdds is composite
 	ZeroBare int   `json:"zerobare"` // 1: glyph 1 is a zero-contour glyph without data; 2: zero-contour glyphs with instructionLength
+	Sparse   int   `json:"sparse"`   // > 0: only this many glyphs (first, last, random ones) are not empty
+	Huge     int   `json:"huge"`     // > 0: digest mode; this many one-point glyphs with 65535 bytes of instructions are added
 }
 
 func recLen(g *glyf.Glyph) int {
@@ -133,9 +220,17 @@ func Build(s LibSpec) glyf.Glyphs {
 	rng := rand.New(rand.NewSource(s.Seed))
 	var gg glyf.Glyphs
 	total := 0
+	keep := map[int]bool{}
+	if s.Sparse > 0 {
+		keep[0], keep[s.N-1] = true, true
+		for len(keep) < s.Sparse && len(keep) < s.N {
+			keep[rng.Intn(s.N)] = true
+		}
+	}
 	for i := 0; i < s.N; i++ {
 		var g *glyf.Glyph
 		switch {
+		case s.Sparse > 0 && !keep[i]:
 		case s.ZeroBare == 1 && i == 1:
 			g = &glyf.Glyph{Data: glyf.SimpleGlyph{NumContours: 0}}
 		case s.ZeroBare == 2 && i == 1:
@@ -168,6 +263,22 @@ func Build(s LibSpec) glyf.Glyphs {
 			g = fonts.SimpleTT(fonts.RandContours(rng), instr)
 		}
 		gg = append(gg, g)
+		total += recLen(g)
+	}
+	for j := 0; j < s.Huge; j++ {
+		instr := make([]byte, 65535-j%3)
+		for i := range instr {
+			instr[i] = byte(i*(2*j+1) + j)
+		}
+		g := fonts.SimpleTT([][]glyf.Point{{{X: funit.Int16(j), Y: funit.Int16(-j), OnCurve: true}}}, instr)
+		// spread them between the other glyphs
+		pos := len(gg)
+		if s.N > 0 {
+			pos = (j * 7919) % (len(gg) + 1)
+		}
+		gg = append(gg, nil)
+		copy(gg[pos+1:], gg[pos:])
+		gg[pos] = g
 		total += recLen(g)
 	}
 	for s.Target > 0 && s.Target-total >= 16 && (s.Target-total)%2 == 0 {
